@@ -39,14 +39,13 @@ def check(F, rep):
     emp = [(b, t) for b, t in find_calls(f, regex=r"^core::slice::is_empty$|slice::<impl \[T\]>::is_empty$|^core::slice::.*is_empty$")]
     nes = find_calls(f, "core::cmp::PartialEq::ne", "core::cmp::PartialEq::eq")
     rep.exact("verifier", "name::decode calls", len(dec), 1)
-    rep.exact("verifier", "intermediates.is_empty() calls", len(emp), 1)
     rep.exact("verifier", "SPKI comparisons", len(nes), 1)
+    emp = emp or [None]
     if asr and dec and emp and nes:
         ab = asr[0][0]
         dt, _ = call_result_tests(f, dec[0][0])
         rep.ob("requires_success", requires(f, ab, dt), site(f, ab), "verified requires the server name to decode to an endpoint id (Some)", skey(F, f, "requires-decode"))
-        et, _ = call_result_tests(f, emp[0][0], family="bool")
-        rep.ob("requires_success", requires(f, ab, et) and arg_ref_target(f, emp[0][1]["args"][0]) == 3, site(f, ab), "verified requires intermediates.is_empty()", skey(F, f, "requires-no-intermediates"))
+        rep.ob("requires_success", no_intermediates(F, f, ab, 3), site(f, ab), "verified requires intermediates.is_empty() (the assertion is unreachable for 1, 2, 5 intermediates - whatever idiom tests it)", skey(F, f, "requires-no-intermediates"))
         nb, nt = nes[0]
         ct, _ = call_result_tests(f, nb, family="bool")
         is_ne = is_call_to(nt, "core::cmp::PartialEq::ne")
@@ -65,9 +64,8 @@ def check(F, rep):
     asr2 = find_calls(g, regex=ASSERTIONS)
     emp2 = [(b, t) for b, t in find_calls(g, regex=r"is_empty$")]
     rep.exact("verifier", "assertion() calls in verify_client_cert", len(asr2), 1)
-    if asr2 and emp2:
-        et, _ = call_result_tests(g, emp2[0][0], family="bool")
-        rep.ob("requires_success", requires(g, asr2[0][0], et) and arg_ref_target(g, emp2[0][1]["args"][0]) == 3, site(g, asr2[0][0]), "client cert accepted only without intermediates", skey(F, g, "requires-no-intermediates"))
+    if asr2:
+        rep.ob("requires_success", no_intermediates(F, g, asr2[0][0], 3), site(g, asr2[0][0]), "client cert accepted only without intermediates", skey(F, g, "requires-no-intermediates"))
     # ---- who produces assertions
     cs = call_sites(F, regex=ASSERTIONS, crates=["iroh"])
     rep.floor("who_calls", "assertion() call sites in crate iroh", len(cs), 2)
@@ -118,7 +116,12 @@ def check(F, rep):
         t = pv_[0][1]
         ok = edu.derives_from_arg(op_base(t["args"][0]), 2) and edu.derives_from_arg(op_base(t["args"][1]), 3) and edu.derives_from_arg(op_base(t["args"][2]), 4)
         ts, tags = call_result_tests(ed, pv_[0][0])
-        ok = ok and (0 in tags)
+        direct = 0 in tags
+        # or: every Ok(..) return lies on the success edge of the strict verification
+        okrets = [(b, i, rv) for b, i, rv in returns_of(ed) if i is not None and rv["k"] == "agg" and rv.get("variant") == "Ok"]
+        other = [(b, i, rv) for b, i, rv in returns_of(ed) if not (i is not None and rv["k"] == "agg" and rv.get("variant") in ("Ok", "Err")) and not (i is None and is_call_to(rv, "core::ops::try_trait::FromResidual::from_residual"))]
+        guarded = bool(okrets) and all(requires(ed, b, ts) for b, i, rv in okrets) and not other
+        ok = ok and (direct or guarded)
     rep.ob("signature", ok, site(ed), "Ed25519Dalek::verify_signature = PublicKey::try_from(key)?.verify(message, signature) (strict verification: C02)", "Ed25519Dalek|verify")
 
     # ---- config wiring
@@ -212,3 +215,28 @@ def check(F, rep):
         if en:
             s_ = copy_sources(cw, op_base(en[0][1]["args"][0]))
             rep.ob("dial", bool(s_) and all(x[2][-1:] == ("id",) or "endpoint_id" in x[2] or x[0] == "arg" for x in s_), site(cw, en[0][0]), "the encoded id is the dialed endpoint id; sources %s" % sorted(map(str, s_)), skey(F, cw, "encode-dialed-id"))
+
+
+def no_intermediates(F, f, site_bb, arg_index):
+    """`site_bb` is unreachable whenever the `intermediates` slice (argument `arg_index`) is
+    non-empty: is_empty() / len() comparisons / match on len(), in the function or in a
+    private helper (inlined view)."""
+    from ..inline import inlined
+    fi = inlined(F, f)
+
+    def of_arg(o):
+        l = op_base(o)
+        if l is None:
+            return False
+        x = copy_sources(fi, l)
+        return bool(x) and all(y[0] == "arg" and y[1] == arg_index and tuple(y[2]) == () for y in x)
+
+    def is_len(o):
+        l = op_base(o)
+        dc = def_call(fi, l) if l is not None else None
+        return dc is not None and re.search(r"(^|::)len$", callee_names(dc[1])[0]) is not None and of_arg(dc[1]["args"][0])
+
+    def is_empty_call(t):
+        return re.search(r"is_empty$", callee_names(t)[0]) is not None and bool(t["args"]) and of_arg(t["args"][0])
+    ok, n = unreachable_when(F, fi, site_bb, is_len, (1, 2, 5), is_empty_call=is_empty_call)
+    return ok and n >= 1
